@@ -1196,5 +1196,9 @@ func params(exp eval.Expression) *expr.MappedAttributeExpr {
 // a HTTP cookie attribute for use by the HTTP code generator.
 func cookieAttribute(name, value string) {
 	c := eval.Current().(*expr.HTTPResponseExpr).Cookies
+	if c == nil {
+		eval.ReportError("cookie attributes must be set after the cookie is defined with Cookie")
+		return
+	}
 	c.AddMeta("cookie:"+name, value)
 }
